@@ -119,7 +119,13 @@ def build(case, chooser=None, horizon=None, light=True, tie=False):
                          delay=None, timestamp=0)
     probe.sim = sim
     seams._CUR["probe"] = probe
-    if light:
+    if light == "events":
+        # real Monitor.run and real collate_events (the event log is the
+        # real one); only the per-step actor dataframes are left out
+        import pandas as pd
+        sim.monitor.collate_actor_dataframes = lambda: pd.DataFrame()
+        sim._generate_final_task_data = lambda: None
+    elif light:
         sim.monitor.run = _light_monitor_run(sim.monitor)
         sim.monitor.collate_events = lambda: None
         sim._generate_final_task_data = lambda: None
@@ -143,6 +149,17 @@ def execute(case, monitors=(), prefix=(), horizon=None, light=True,
     supported by topsim after a pause" -- so pause histories always end with
     an explicit time.
     """
+    before = case.get("before")
+    if before:
+        # earlier simulations of the same process history (shared policy
+        # objects via alg["reuse"]); they run unobserved and without choices
+        seams.REUSE.clear()
+        for b in before:
+            try:
+                execute({k: v for k, v in b.items() if k != "before"}, (), (),
+                        horizon, True, False)
+            except HarnessError:
+                pass
     chooser = Chooser(prefix)
     run = build(case, chooser, horizon, light, tie)
     sim, env, probe = run.sim, run.env, run.probe
@@ -199,6 +216,8 @@ def execute(case, monitors=(), prefix=(), horizon=None, light=True,
     probe.done = True
     seams._CUR["probe"] = None
     seams.set_hash_order(None)
+    if before:
+        seams.REUSE.clear()
     return run
 
 
